@@ -2,6 +2,7 @@ package pconc
 
 import (
 	"bytes"
+	"errors"
 	"fmt"
 	"io"
 	"runtime"
@@ -388,13 +389,19 @@ func propC12Aggregates(t *rapid.T) {
 // yieldReader hands out a few bytes at a time and yields in between, so that
 // concurrent decoders interleave while they hold pooled reader adapters.
 type yieldReader struct {
-	data []byte
-	pos  int
-	step int
+	data     []byte
+	pos      int
+	step     int
+	failWith error // returned instead of io.EOF when the data runs out
 }
+
+var errSourceBroke = errors.New("source broke down")
 
 func (r *yieldReader) Read(p []byte) (int, error) {
 	if r.pos >= len(r.data) {
+		if r.failWith != nil {
+			return 0, r.failWith
+		}
 		return 0, io.EOF
 	}
 	n := r.step
@@ -432,6 +439,10 @@ func propC12Decode(t *rapid.T) {
 		enc := jobs[i%k].enc
 		cut := rapid.IntRange(0, len(enc)-1).Draw(t, "cut")
 		roaring.New().ReadFrom(&yieldReader{data: enc[:cut], step: 3})
+		// ... and a source that breaks down with an error of its own (not EOF) part of the way
+		roaring.New().ReadFrom(&yieldReader{data: enc[:cut], step: 3, failWith: errSourceBroke})
+		r64b := roaring64.New()
+		r64b.ReadFrom(&yieldReader{data: enc[:cut], step: 2, failWith: errSourceBroke})
 		roaring.New().FromBuffer(enc[:cut])
 		r64 := roaring64.New()
 		r64.ReadFrom(&yieldReader{data: enc[:cut], step: 3})
@@ -573,6 +584,42 @@ func propC12BSI(t *rapid.T) {
 		c64.ClearValues(roaring64.BitmapOf(1 << 40))
 		if !c64.Equals(b64) && c64.GetCardinality() != uint64(n) {
 			panic("BSI64 ClearValues after ParOr does not restore the index")
+		}
+		// a narrow receiver that holds negative values, operands with their own (larger) widths: the receiver
+		// has to be widened and its negative values sign-extended while the planes are merged in parallel
+		for _, impl := range []int{64, 32} {
+			negv := -int64(rapid.SampledFrom([]int{1, 3, 7, 100}).Draw(t, "neg"))
+			wide := int64(1)<<uint(rapid.SampledFrom([]int{3, 10, 20, 40}).Draw(t, "wide")) | 5
+			wide2 := -(int64(1) << uint(rapid.SampledFrom([]int{2, 12, 33}).Draw(t, "wide2")))
+			if impl == 64 {
+				rc := roaring64.NewDefaultBSI()
+				rc.SetValue(2, negv)
+				rc.SetValue(9, 5)
+				o1, o2 := roaring64.NewDefaultBSI(), roaring64.NewDefaultBSI()
+				o1.SetValue(1<<33, wide)
+				o1.SetValue(77, 1)
+				o2.SetValue(3<<32+1, wide2)
+				rc.ParOr(workers, o1, o2)
+				for c, w := range map[uint64]int64{2: negv, 9: 5, 1 << 33: wide, 77: 1, 3<<32 + 1: wide2} {
+					if g, ok := rc.GetValue(c); !ok || g != w {
+						panic(fmt.Sprintf("BSI64 ParOr(receiver {2:%d,9:5}, operands {2^33:%d,77:1},{3*2^32+1:%d}): column %d reads (%d,%v) want %d", negv, wide, wide2, c, g, ok, w))
+					}
+				}
+			} else {
+				rc := bsi32.NewDefaultBSI()
+				rc.SetValue(2, negv)
+				rc.SetValue(9, 5)
+				o1, o2 := bsi32.NewDefaultBSI(), bsi32.NewDefaultBSI()
+				o1.SetValue(1<<20, wide)
+				o1.SetValue(77, 1)
+				o2.SetValue(3<<16+1, wide2)
+				rc.ParOr(workers, o1, o2)
+				for c, w := range map[uint64]int64{2: negv, 9: 5, 1 << 20: wide, 77: 1, 3<<16 + 1: wide2} {
+					if g, ok := rc.GetValue(c); !ok || g != w {
+						panic(fmt.Sprintf("BSI32 ParOr(receiver {2:%d,9:5}, operands {2^20:%d,77:1},{3*2^16+1:%d}): column %d reads (%d,%v) want %d", negv, wide, wide2, c, g, ok, w))
+					}
+				}
+			}
 		}
 		r := b64.NewBSIRetainSet(g64)
 		if r.GetCardinality() != uint64(len(wantGE)) {
